@@ -84,7 +84,7 @@ def window(dim):
     return list(itertools.product(range(2 * W), repeat=dim))
 
 
-@unit("interp_weights", props=("C06",), kernels=False,
+@unit("interp_weights", props=("C06",), extra_props=("C07",), kernels=False,
       configs=[dict(dim=d, kernel=k, n_mark=n) for d in (2, 3) for k in ("cosine", "peskin") for n in (1, 2)],
       assumes=("sqrt axiomatised by t >= 0, t^2 = arg on arg >= 0", "M6 cos facts (range, quarter-turn values) for the cosine kernel"))
 def interp_weights(K, dim, kernel, n_mark):
@@ -114,10 +114,13 @@ def interp_weights(K, dim, kernel, n_mark):
             total = total + w
             for a in range(dim):
                 moment[a] = moment[a] + r[a] * w
-        K.ensures_eq(f"partition_of_unity[{i}]", total * dx**dim, 1)
+        # these two clauses also carry C07's conservation corollary (grid integral of a spread force = marker force,
+        # Peskin: first moment preserved): the spreading postcondition is stated for arbitrary weights, the REAL
+        # weights enter here
+        K.ensures_eq(f"partition_of_unity[{i}]", total * dx**dim, 1, props=("C06", "C07"))
         if kernel == "peskin":
             for a in range(dim):
-                K.ensures_eq(f"first_moment_vanishes[{a},{i}]", moment[a], 0)
+                K.ensures_eq(f"first_moment_vanishes[{a},{i}]", moment[a], 0, props=("C06", "C07"))
     p = [K.real(f"factor{a}", nonneg=True) for a in range(dim)]
     prod = 1
     for a in range(dim):
